@@ -12,6 +12,9 @@ RULE = ("for every contract and every from-version below/at/above each bound the
         "distinct_nontrivial = distinct (operation, observation) pairs of HALTed operations")
 PROPS = {
     "C16": dict(lean=["NeoFS.Props.C16"], driver="drv_upgrade", harness="upgrade", monitors=["C16"],
+                # `nonwf` cases of this harness are corrupted / mixed-layout storages that no version of the contracts could have
+                # written: compared with the model, recorded when they differ, never reported (outside the property's quantifier)
+                unreachable_attr="nonwf",
                 shards=dict(quick=1, thorough=16), rule=RULE, facts=["consts"]),
 }
 NOTE = ("Theorems are about NeoFS/Model/Upgrade*.lean, a branch-by-branch model of common/version.go, common/update.go, common/vote.go "
